@@ -3572,16 +3572,37 @@ static void scan_globals(void) {
       continue;
     }
 
-    // Find another definition of the same identifier.
-    Obj *var2 = globals;
-    for (; var2; var2 = var2->next)
-      if (var != var2 && var2->is_definition && !strcmp(var->name, var2->name))
-        break;
+    // Find another definition of the same identifier. If there's a
+    // real one, the tentative definition is redundant. Among several
+    // tentative definitions exactly one is kept: the first one in the
+    // list whose type is complete, or else the first one.
+    bool redundant = false;
+    bool seen_self = false;
+    for (Obj *var2 = globals; var2 && !redundant; var2 = var2->next) {
+      if (var2 == var) {
+        seen_self = true;
+        continue;
+      }
 
-    // If there's another definition, the tentative definition
-    // is redundant
-    if (!var2)
-      cur = cur->next = var;
+      if (var2->is_function || !var2->is_definition || strcmp(var->name, var2->name))
+        continue;
+
+      if (!var2->is_tentative)
+        redundant = true;
+      else if ((var2->ty->size < 0) != (var->ty->size < 0))
+        redundant = (var->ty->size < 0);
+      else
+        redundant = !seen_self;
+    }
+
+    if (redundant)
+      continue;
+
+    // [https://www.sigbus.info/n1570#6.9.2p5] An array of unknown size
+    // at the end of the translation unit has one element.
+    if (var->ty->kind == TY_ARRAY && var->ty->size < 0)
+      var->ty = array_of(var->ty->base, 1);
+    cur = cur->next = var;
   }
 
   cur->next = NULL;
